@@ -36,6 +36,7 @@ PY = "/venv/bin/python"
 EVIDENCE_DIR = os.environ.get("VERIF_EVIDENCE_DIR") or os.path.join(VERIF, "evidence")
 REPLAY_DIR = os.environ.get("VERIF_REPLAY_DIR") or os.path.join(VERIF, "replays")
 KNOWN_FINDINGS = os.path.join(VERIF, "known_findings.json")
+KNOWN_CONFIRM = int(os.environ.get("VERIF_KNOWN_CONFIRM", "3"))
 
 
 def ensure_env():
@@ -380,8 +381,20 @@ def drive(mod, tier, seed):
                     return sig, False, out1
             return sig, False, out1
 
+        # every signature class that would be reported as a VIOLATION is
+        # confirmed; of the classes that match an already adjudicated known
+        # finding, up to KNOWN_CONFIRM per finding are (they only feed the
+        # KNOWN-FINDING line, and a finding can have hundreds of classes)
+        to_confirm, per_kf = [], Counter()
+        for sig in sorted(by_sig):
+            kf = match_known(prop, by_sig[sig][0], known)
+            if kf is None:
+                to_confirm.append(sig)
+            elif per_kf[kf["id"]] < KNOWN_CONFIRM:
+                per_kf[kf["id"]] += 1
+                to_confirm.append(sig)
         with ThreadPoolExecutor(nworkers()) as tp:
-            for sig, ok, out1 in tp.map(_confirm, sorted(by_sig)):
+            for sig, ok, out1 in tp.map(_confirm, to_confirm):
                 confirmed[sig] = (ok, out1)
     for sig in sorted(by_sig):
         fs = by_sig[sig]
